@@ -81,3 +81,34 @@ w('C09', 'fixed_listing_data_items', 'READ a$\nPRINT a$\nDATA i0, , "x y"\n')
 w('C09', 'fixed_data_33000', None, **{'name': 'data_33000'})
 w('C06', 'fixed_nested_const_argument', 'CONST rix% = 8\nCONST mo% = rix%\nx& = u1&(mo%)\nPRINT x&\nFUNCTION u1&(a%)\nu1& = a% * 2\nEND FUNCTION\n')
 w('C06', 'fixed_too_many_cells', 'DIM SHARED a(70000) AS INTEGER\nDIM SHARED z AS INTEGER\nz = 3\n')
+
+
+def ast_witnesses():
+    """Witnesses that need an AST (C11): built with the generator's classes."""
+    import sys
+    sys.path.insert(0, ROOT)
+    from qv import ast as A, cases, render
+    V = lambda n: A.LV(n, [], [], n[-1])
+    N = lambda v: A.Num('%', v, str(v))
+
+    def save(pid, name, prog):
+        enc = cases.encode_case(prog, {}, render.PLAIN)
+        d = os.path.join(ROOT, 'replays', pid)
+        os.makedirs(d, exist_ok=True)
+        with open(os.path.join(d, name + '.json'), 'w') as f:
+            json.dump({'property': pid, 'bucket': 'witness', 'case': enc}, f,
+                      indent=1)
+    save('C11', 'fixed_end_select_overlap', A.Program([
+        A.Select(A.Bin('-', V('ra%'), V('gx%'), '%'),
+                 [([('v', N(4))], []),
+                  ([('is', '=', N(5)), ('v', N(8))], [])], None)]))
+    save('C11', 'fixed_select_without_case', A.Program([
+        A.Select(A.Str('u1q'), [], None), A.Print([A.Str('u2q')])]))
+    save('C11', 'fixed_block_body_optimised_away', A.Program([
+        A.For(V('cu!'), N(0), N(1), None,
+              [A.Assign(V('r1#'), A.Paren(V('r1#')))]),
+        A.Print([A.Str('u1q')])]))
+
+
+if os.environ.get('QV_AST_WITNESSES'):
+    ast_witnesses()
